@@ -268,6 +268,30 @@ def apply(soup, root, op):
             else:
                 raise AssertionError(op)
         return None
+    if name == 'move':
+        # take node k out of the document and append the very same node to container c
+        k, c = op[1], op[2]
+        conts = [root] + [x for x in nodes if supports_contents(x)]
+        if k >= len(nodes) or c >= len(conts):
+            return 'skip'
+        m, dest = nodes[k], conts[c]
+        if dest is m or any([x is dest for x in m_nodes(m, [])]):
+            return 'skip'           # not into itself
+        pm = m.get('parent')
+        if pm is not None and pm['t'] == 'cmd' and pm['name'] != 'item' and any([x is m for x in pm['contents']]):
+            return 'skip'
+        node = real_node(soup, m)
+        dnode = soup if dest is root else real_node(soup, dest)
+        if node is None or dnode is None:
+            return 'skip'
+        lst, i = m_holder(root, m)
+        node.delete()
+        del lst[i]
+        dnode.append(node)
+        dest['contents'].append(m)
+        m['parent'] = dest
+        root['last_added'] = [m]
+        return None
     if name in ('insert', 'append'):
         conts = [root] + [x for x in nodes if supports_contents(x)]
         c = op[1]
